@@ -51,6 +51,11 @@ func tText(c context, s []byte) (context, int) {
 		j, e := eatTagName(s, i)
 		if j != i {
 			// We've found an HTML tag.
+			if j < len(s) && bytes.IndexByte(tagEndSeparators, s[j]) == -1 {
+				// e.g. `<p.x` or `<a_b`: for an HTML parser the tag name goes on until white
+				// space, "/" or ">", so e.name is only a prefix of it.
+				e.continued = true
+			}
 			ret := context{state: stateTag, enclosing: c.enclosing}
 			// Element name not needed if we are at the end of the element.
 			if !end {
